@@ -895,6 +895,11 @@ func rootLeaves(v ssa.Value, seen map[ssa.Value]bool) []ssa.Value {
 			out = append(out, rootLeaves(e, seen)...)
 		}
 		return out
+	case *ssa.ChangeType:
+		// the same slice under a defined type (type requestIDs []string)
+		if _, isSlice := x.Type().Underlying().(*types.Slice); isSlice {
+			return rootLeaves(x.X, seen)
+		}
 	case *ssa.Call:
 		if bi, ok := x.Call.Value.(*ssa.Builtin); ok && bi.Name() == "append" {
 			out := rootLeaves(x.Call.Args[0], seen)
@@ -993,7 +998,8 @@ func checkMetadataCerts(r *Report, p *Prog, top *ssa.Function, rule string) {
 					continue
 				}
 				bi, ok := c.Call.Value.(*ssa.Builtin)
-				if !ok || bi.Name() != "append" || types.TypeString(c.Type(), nil) != "[]string" {
+				// (a list of strings, possibly under a defined type: type certBase64 string)
+				if !ok || bi.Name() != "append" || sliceElem(c.Type()) == nil || !isStringType(sliceElem(c.Type())) {
 					continue
 				}
 				n++
@@ -1063,10 +1069,13 @@ func helperRegion(p *Prog, fn *ssa.Function, depth int) []*ssa.Function {
 						continue
 					}
 					sc, _ := calleeOf(ci.Common())
-					if sc == nil || seen[sc] || !p.InModule(sc) || len(sc.Blocks) == 0 || sc.Pkg != fn.Pkg {
+					if sc == nil || seen[sc] || !p.InModule(sc) || len(sc.Blocks) == 0 {
 						continue
 					}
-					if sc.Object() != nil && sc.Object().Exported() {
+					// an unexported function of the same package, or a helper moved into an internal package of the module
+					// (exported there because it is called across packages; only the library can import it)
+					internal := sc.Pkg != nil && strings.HasPrefix(sc.Pkg.Pkg.Path(), modPath+"/internal/")
+					if !internal && (sc.Pkg != fn.Pkg && !(fn.Pkg != nil && strings.HasPrefix(fn.Pkg.Pkg.Path(), modPath+"/internal/") && sc.Pkg == fn.Pkg) || sc.Object() != nil && sc.Object().Exported()) {
 						continue
 					}
 					seen[sc] = true
@@ -1101,6 +1110,8 @@ func checkFingerprint(r *Report, p *Prog, fn *ssa.Function, rule string) {
 			if strings.Contains(name, "IDPCertificateFingerprint") && strings.Contains(name, "fingerprint") && fc.Implied(ret.Block(), B.Var(name)) {
 				// the fingerprint is computed over the certificate that is returned
 				for _, v := range ai.Vals {
+					// (the comparison may sit in a method of a defined string type: finP.matches(configured))
+					_, v = throughParams(ai.Ctx, v)
 					if ex, okx := v.(*ssa.Extract); okx {
 						if call, okc := ex.Tuple.(*ssa.Call); okc && len(call.Call.Args) > 0 {
 							// (the certificate operand of the fingerprint function, wherever it stands among its arguments)
@@ -1856,4 +1867,30 @@ func mutatesThrough(p *Prog, fn *ssa.Function, prm *ssa.Parameter, depth int) bo
 		}
 	}
 	return false
+}
+
+// throughParams: v seen from the function that supplied it: conversions between string types and changes of defined
+// type are peeled, and a parameter of a helper analysed as part of its caller is replaced by the argument (in the
+// caller's context), repeatedly.
+func throughParams(fc *FuncCtx, v ssa.Value) (*FuncCtx, ssa.Value) {
+	for i := 0; i < 6; i++ {
+		switch x := v.(type) {
+		case *ssa.ChangeType:
+			v = x.X
+			continue
+		case *ssa.Convert:
+			if isStringType(x.X.Type()) && isStringType(x.Type()) {
+				v = x.X
+				continue
+			}
+		case *ssa.Parameter:
+			if fc != nil && fc.parent != nil && fc.argVal[x] != nil {
+				v = fc.argVal[x]
+				fc = fc.parent
+				continue
+			}
+		}
+		break
+	}
+	return fc, v
 }
